@@ -28,7 +28,7 @@ ASSUMPTIONS = ['pyexpat 2.5 as second witness for XML 1.0 output (decoded with P
                'escape lists of XMLFormatter modes taken from gEscapeChars on the unchanged tree (header documentation is out of date) and '
                'cross-checked semantically by parsing the formatted text in the context the mode is for',
                'format-pretty-print off (excluded by the property); serializer feature "entities" left at its default (true)']
-BUDGET = {'quick': 500, 'thorough': 4000}
+BUDGET = {'quick': 900, 'thorough': 8000}
 WALLCAP = {'quick': 500, 'thorough': 2700}
 
 XMLNS_URI = xm.XMLNS_URI
